@@ -504,26 +504,46 @@ def make_gate_pdb(n_alt):
     return '\n'.join(out) + '\n'
 
 
+EXTRA_FF = '''[ link ]
+resname "PRO"
+[ atoms ]
+BB {}
++BB {}
+[ edges ]
+BB +BB
+[ warning ]
+verification: force-field defined warning for {BB[resname]}{BB[resid]}
+'''
+
+
 def _gate_run(args):
-    n_alt, maxwarn, preexisting, idx = args
+    n_alt, maxwarn, preexisting, idx = args[:4]
+    ffwarn = len(args) > 4 and args[4]
     root = tempfile.mkdtemp(prefix='c07g_', dir=_SCRATCH)
     try:
         with open(os.path.join(root, 'in.pdb'), 'w') as fh:
             fh.write(make_gate_pdb(n_alt))
+        if ffwarn:
+            # a force-field defined [ warning ] entry: reported as a warning of type "model" when the output is prepared
+            os.makedirs(os.path.join(root, 'ff', 'martini3001'))
+            with open(os.path.join(root, 'ff', 'martini3001', 'verif_extra.ff'), 'w') as fh:
+                fh.write(EXTRA_FF)
         outs = ['cg.pdb', 'topol.top', 'molecule_0.itp']
         if preexisting:
             for f in outs:
                 with open(os.path.join(root, f), 'w') as fh:
                     fh.write('precious %s\n' % f)
-        before = dir_ids(root)
+        before = {k: v for k, v in dir_ids(root).items() if not k.startswith('ff' + os.sep)}
         cmd = [sys.executable, os.path.join(REPO, 'bin', 'martinize2'), '-f', 'in.pdb', '-x', 'cg.pdb', '-o', 'topol.top',
                '-ff', 'martini3001', '-nt', '-noscfix']
         for group in maxwarn:
             cmd += ['-maxwarn'] + group
+        if ffwarn:
+            cmd += ['-ff-dir', 'ff']
         env = dict(os.environ)
         env['PYTHONPATH'] = REPO
         p = subprocess.run(cmd, cwd=root, env=env, stdout=subprocess.PIPE, stderr=subprocess.PIPE, text=True, timeout=600)
-        after = dir_ids(root)
+        after = {k: v for k, v in dir_ids(root).items() if not k.startswith('ff' + os.sep)}
         counts = collections.Counter()
         above = 0
         for line in p.stderr.splitlines():
@@ -630,6 +650,7 @@ def run(tier, seed, ev, vd):
     gate_matrix = [
         (0, [], True), (2, [], True), (2, [['2']], True), (2, [['pdb-alternate:1'], ['1']], True),
         (3, [['pdb-alternate:2', '1']], False), (1, [['pdb-alternate']], True),
+        (0, [], True, True), (0, [['model:1']], True, True), (1, [['pdb-alternate']], True, True),
     ]
     if not quick:
         gate_matrix += [(3, [['pdb-alternate:2'], ['0']], True), (2, [['unmapped-atom:5']], True), (2, [['1']], False),
@@ -637,7 +658,7 @@ def run(tier, seed, ev, vd):
                         (0, [['3']], False), (3, [['2'], ['pdb-alternate:1']], True), (1, [['1']], True),
                         (2, [['pdb-alternate:2']], False)]
     with mp.Pool(min(tlc.NCPU, len(gate_matrix))) as pool:
-        gate_events = pool.map(_gate_run, [(a, b, c, i) for i, (a, b, c) in enumerate(gate_matrix)])
+        gate_events = pool.map(_gate_run, [(g[0], g[1], g[2], i) + tuple(g[3:]) for i, g in enumerate(gate_matrix)])
     all_events = events + gate_events
     jres, verdicts = judge([{k: v for k, v in e.items() if k not in ('stderr_tail', 'argv')} for e in all_events])
     ev.add_tlc('TRACE Trace_Writers (writer snapshots + CLI gate runs)', jres)
